@@ -50,7 +50,7 @@ META = dict(
               "prescribes; layout-writer files for sdf, pdb, gro, mol2, xyz, extxyz, poscar, chgcar, locpot, cube, crd are "
               "checked with CODATA-2018 constants in C03 (tolerance 1e-7); writers follow from C02 (reader o writer = id); "
               "writing in a format with other units leaves the object's own values untouched (units-after-dump, 12 formats)",
-        thorough="more corpus files per format"),
+        thorough="19 further corpus files of the same formats (cp2k, gromacs, fchk, wfn, wfx, qchem, gaussian input, mwfn, extxyz)"),
     outside=["attribute elements that are not affine in a single file number (reported as undecided)",
              "molden / molekel coordinates (the vendor cascade makes the tokenised run intractable; units are part of C05)",
              "orbital coefficients / basis exponents (dimensionless or covered by C01/C05)"],
@@ -77,6 +77,30 @@ CASES = [
     ("mwfn", "ch3_hf_sto3g_fchk_multiwfn3.7.mwfn", {"atcoords": "angstrom", "energy": "one"}, r"Occ=|Naelec|Nbelec|E_tot"),
     ("extxyz", "mgo.xyz", {"atcoords": "angstrom", "cellvecs": "angstrom"}, None),
     ("json_qcschema", "@LiCl_molecule.json+masses", {"atcoords": "one", "atmasses": "amu"}, None),
+]
+
+
+# further fixtures of the same formats (thorough tier)
+CASES_THOROUGH = [
+    ("cp2klog", "atom_om2.cp2k.out", {"energy": "one"}, None),
+    ("cp2klog", "carbon_gs_ae_contracted.cp2k.out", {"energy": "one"}, None),
+    ("cp2klog", "carbon_sc_pp_uncontracted.cp2k.out", {"energy": "one"}, None),
+    ("gromacs", "water2.gro", {"atcoords": "nanometer", "cellvecs": "nanometer", "extra.velocities": "nm/ps"}, None),
+    ("fchk", "water_atcharges.fchk", {"atcoords": "one", "atmasses": "amu", "energy": "one"}, None),
+    ("fchk", "ch3_hf_sto3g.fchk", {"atcoords": "one", "atmasses": "amu", "energy": "one"}, None),
+    ("fchk", "water_dimer_ghost.fchk", {"atcoords": "one", "atmasses": "amu", "energy": "one"}, None),
+    ("fchk", "peroxide_tsopt.fchk", {"atcoords": "one", "atmasses": "amu", "energy": "one", "atgradient": "one"}, None),
+    ("fchk", "li_h_3-21G_hf_g09.fchk", {"atcoords": "one", "atmasses": "amu", "energy": "one"}, None),
+    ("wfn", "he_spd_orbital.wfn", {"atcoords": "one", "energy": "one"}, r"OCC NO"),
+    ("wfn", "lih_cation_uhf.wfn", {"atcoords": "one", "energy": "one"}, r"OCC NO"),
+    ("wfx", "lih_cation_uhf.wfx", {"atcoords": "one", "energy": "one"}, None),
+    ("wfx", "h2_ub3lyp_ccpvtz.wfx", {"atcoords": "one", "energy": "one"}, None),
+    ("qchemlog", "h2o_dimer_eda_qchem5.3.out", {"atcoords": "angstrom", "energy": "one"}, r"Tot"),
+    ("gaussianinput", "water_multi_title.com", {"atcoords": "angstrom"}, None),
+    ("gaussianinput", "water_multi_route.com", {"atcoords": "angstrom"}, None),
+    ("gaussianinput", "water.gjf", {"atcoords": "angstrom"}, None),
+    ("mwfn", "ch3_rohf_sto3g_g03_fchk_multiwfn3.7.mwfn", {"atcoords": "angstrom", "energy": "one"}, r"Occ=|Naelec|Nbelec|E_tot"),
+    ("extxyz", "al_fcc.xyz", {"atcoords": "angstrom", "cellvecs": "angstrom"}, None),
 ]
 
 
@@ -131,6 +155,9 @@ def h_corpus(ctx, fmt="gamess", fn="PCGamess_PUNCH.dat", units=None, skip=None, 
                 # numbers that make the fixture inconsistent (e.g. unequal exponents within a shell) are
                 # rightly rejected by the reader: nothing to check on this path
                 ctx.note(f"rejected by the reader: {e}")
+                if e.__cause__ is not None:
+                    # not a consistency check of the reader but an operation the engine or the reader could not carry out
+                    raise core.PathAbort(f"fixture not loadable under symbolic numbers: {type(e.__cause__).__name__}: {e.__cause__}")
                 return
     numbers = None
     if ctx.mode == "conc":
@@ -232,6 +259,10 @@ def jobs(tier):
     for fmt, fn, units, skip in CASES:
         out.append(job("C04", f"corpus[{fmt},{fn}]", M, "h_corpus", dict(fmt=fmt, fn=fn, units=units, skip=skip),
                        budget_s=600, max_validate=0, validate=False))
+    if tier == "thorough":
+        for fmt, fn, units, skip in CASES_THOROUGH:
+            out.append(job("C04", f"corpus[{fmt},{fn}]", M, "h_corpus", dict(fmt=fmt, fn=fn, units=units, skip=skip),
+                           budget_s=1800, max_validate=0, validate=False))
     for unit in ("AU", "(AU)", "Angs", "(Angs)", "(ANGS)", "au"):
         out.append(job("C04", f"molden-units[{unit}]", M, "h_molden_units", dict(unit=unit), max_validate=2))
     for fmt, n, var in (("fchk", 2, "post"), ("xyz", 2, "default"), ("pdb", 3, "full"), ("mol2", 3, "full"), ("sdf", 3, "bonds"),
